@@ -157,6 +157,13 @@ theorem C14_string_signbit (t : Table w) (x : BitVec w) (e : BitVec w × Name) (
   simp only []
   rw [if_pos (outside_of_signbit (orAll t) x hmx)]
 
+/-- the composite String() for a value with an UNDECLARED bit, for ANY table (flags that are not single bits,
+    overlapping composites, a declared zero, a flag on the sign bit — no hypothesis on its shape): the
+    decimal form; no part of such a value is ever spelled out -/
+theorem C14_string_undeclared_bit (signed : Bool) (t : Table w) (x : BitVec w)
+    (i : Nat) (hx : x.getLsbD i = true) (hi : ∀ e ∈ t, e.1.getLsbD i = false) :
+    string signed t x = .dec (decOf signed x) := string_undeclared_bit signed t x i hx hi
+
 /-- a declared zero prints its name; zero is never part of a joined list -/
 theorem C14_string_zero (signed : Bool) (t : Table w) (x : BitVec w) (ns : List Name)
     (h : string signed t x = .joined ns) (n : Name) (hz : ((0 : BitVec w), n) ∈ t)
@@ -199,6 +206,9 @@ def bitExample : Bit.Table 8 :=
 
 /-- overlapping flags `1, 2, 3, 5, 6` on uint8 (not the grammar): the exact picks; 7 is left with 4 and prints "7" -/
 def overlapExample : Bit.Table 8 := [(1, ['a']), (2, ['b']), (3, ['c']), (5, ['d']), (6, ['e'])]
+
+example : (∀ e ∈ overlapExample, e.1.getLsbD 3 = false) ∧ (11 : BitVec 8).getLsbD 3 = true ∧
+    Bit.string false overlapExample 11 = .dec 11 := by decide
 
 example : Bit.WFt false overlapExample = false ∧
     Bit.string false overlapExample 7 = .dec 7 ∧
